@@ -96,7 +96,7 @@ fn spec_for(prop: &str, _tier: Tier) -> Option<Spec> {
 			.require("mut_append", 5)
 			.require("mut_file_level", 10)
 			.assume("CRC-32 detects all single-bit flips and bursts <= 32 bits; random multi-byte damage escaping with probability 2^-32 is ignored"),
-		Mode::C16 => Spec::new("C16", "fault_enumeration", &format!("{}A fault is injected at try_io boundary k of a pipeline step (persisting from then on); the harness reports the step error the way a background worker does, then: reads must return the latest committed data, a new commit must be refused with a background error, drop must return, and after the fault is cleared reopening must give S_m with synced <= m <= issued.", common))
+		Mode::C16 => Spec::new("C16", "fault_enumeration", &format!("{}A fault is injected at try_io boundary k of a pipeline step (persisting from then on); the step must return the error (a step that returns Ok although one of its file operations failed is a violation: counted per thread by a hook in the fault injector); the harness reports the step error the way a background worker does, then: reads must return the latest committed data, a new commit must be refused with a background error, drop must return (half of the time with the fault still present, half with the shutdown's own file operations succeeding), and after the fault is cleared reopening must give S_m with synced <= m <= issued.", common))
 			.require("faults_injected", 200)
 			.require("commit_refused_checks", 100)
 			.require("reopen_after_fault", 100)
@@ -105,6 +105,8 @@ fn spec_for(prop: &str, _tier: Tier) -> Option<Spec> {
 			.require("fault_in_flush", 5)
 			.require("fault_in_clean", 5)
 			.require("fault_in_open", 5)
+			.require("drop_with_fault_persisting", 20)
+			.require("drop_with_fault_gone", 20)
 			.budget(60, 900),
 	})
 }
@@ -515,10 +517,23 @@ fn crash_child(mode: Mode, rec: &Recorded, dir: &Path, act: usize, phase: &'stat
 		},
 		("step", Act::Step(s)) => {
 			let d = db.as_ref().unwrap();
+			let inj0 = parity_db::verif_injected_failures();
 			parity_db::set_number_of_allowed_io_operations(k as usize);
 			let r = dbutil::do_step(d, *s);
 			parity_db::set_number_of_allowed_io_operations(usize::MAX);
+			let injected = parity_db::verif_injected_failures() - inj0;
 			match r {
+				Ok(()) if injected > 0 => {
+					// a file operation failed inside the step and the step reported success
+					bump(&mut counts, "faults_swallowed_by_step", 1);
+					if mode == Mode::C16 {
+						violations.push(
+							J::obj()
+								.set("sig", J::s(format!("failure=fault_not_reported;step={}", s.name())))
+								.set("detail", J::s(format!("{} returned Ok although {} of its file operations failed (the failure is neither returned by the failing call nor stored for later commits)", s.name(), injected))),
+						);
+					}
+				},
 				Ok(()) => completed = true,
 				Err(e) => fault_err = Some(e),
 			}
@@ -910,8 +925,15 @@ fn fault_flow(
 	}
 	// shutdown terminates (the parent's watchdog turns a hang into a violation)
 	child::phase("drop after fault");
-	// the fault persists until restart: every file operation of the shutdown fails too
-	parity_db::set_number_of_allowed_io_operations(0);
+	// the fault persists until restart: every file operation of the shutdown fails too - or (every
+	// other case) it only hit the pipeline step and the shutdown's own file operations succeed:
+	// with an error present no further log may be enacted, rewritten or removed either way
+	if rng.chance(1, 2) {
+		parity_db::set_number_of_allowed_io_operations(0);
+		*counts.entry("drop_with_fault_persisting".to_string()).or_insert(0) += 1;
+	} else {
+		*counts.entry("drop_with_fault_gone".to_string()).or_insert(0) += 1;
+	}
 	drop(db);
 	parity_db::set_number_of_allowed_io_operations(usize::MAX);
 	interpose::stop();
